@@ -63,7 +63,11 @@ def compute_signature(
             # Hash on UFL signature and points
             signature = ufl.algorithms.signature.compute_expression_signature(expr, rn)
             object_signature += signature
-            object_signature += repr(points)
+            # NOTE: repr() of an array rounds to 8 digits and elides the middle of
+            # large arrays, so different point sets could share a signature
+            points = np.ascontiguousarray(points)
+            object_signature += f"{points.shape}{points.dtype}"
+            object_signature += hashlib.sha1(points.tobytes()).hexdigest()
 
             kind = "expression"
         else:
